@@ -169,7 +169,7 @@ CapacityOK == CapOK(S)
 \* C07
 TokensOK == TokenOK(S) /\ (S.res = "shutdown" \/ InflOK(S))
 \* C08
-InterestsOK == InterestOK(S)
+InterestsOK == InterestOK(S) /\ ClosedNoOutput(S)
 
 \* C12 (server level): descriptors are conserved, never duplicated, and stay with the client that sent them
 FilesOK == FilesOwnedOK(S) /\ FilesOnceOK(S)
@@ -202,7 +202,9 @@ Refused503 ==
     \A c \in Clients :
         (S.cl[c].refused /\ S.cl[c].st = "open" /\ ~S.cl[c].rd)
             => /\ S.cl[c].srvClosed /\ S.cl[c].fd = 0
-               /\ \E i \in 1..(Len(L_SERVER_FULL) + 1) : S.s2c[c] = From(L_SERVER_FULL, i)
+               \* what it has received plus what still waits for it is exactly the fixed message
+               /\ S.cl[c].rcvd + Len(S.s2c[c]) = Len(L_SERVER_FULL)
+               /\ S.s2c[c] = From(L_SERVER_FULL, S.cl[c].rcvd + 1)
 
 \* C18: a poll that starts after the signal reports shutdown; the signal keeps epoll ready
 KillWins == (mode = "app" /\ kAtStart) => S.res = "shutdown"
